@@ -107,7 +107,7 @@ fn ser_case_strategy() -> BoxedStrategy<SerCase> {
         .boxed()
 }
 
-fn be_fixed(v: &Z, n: usize) -> Vec<u8> {
+pub fn be_fixed(v: &Z, n: usize) -> Vec<u8> {
     let raw = v.to_bytes_be();
     let mut out = vec![0u8; n - raw.len()];
     out.extend_from_slice(&raw);
@@ -115,14 +115,14 @@ fn be_fixed(v: &Z, n: usize) -> Vec<u8> {
 }
 
 /// what the model expects from reading `stream` as type `ty` with flag `compressed`
-enum Expect {
+pub enum Expect {
     /// must be Err (not a value, not a panic)
     Error(&'static str),
     /// must succeed, consume exactly `n` bytes and yield the model value encoded by `image`
     Value { consumed: usize, image: Vec<u8> },
 }
 
-fn expect_for(ty: &Ty, compressed: bool, stream: &[u8]) -> Expect {
+pub fn expect_for(ty: &Ty, compressed: bool, stream: &[u8]) -> Expect {
     match ty {
         Ty::Fr => {
             if stream.len() < 32 {
@@ -170,7 +170,7 @@ fn expect_for(ty: &Ty, compressed: bool, stream: &[u8]) -> Expect {
 /// established that `image` is the canonical encoding of exactly one value, equality of the
 /// re-serialization (checked against the model encoder elsewhere) identifies the value; in
 /// addition the value is compared directly through the accessors.
-fn run_read<T: SerDes>(ty: &Ty, compressed: bool, stream: &[u8], chunks: &[u8], value_image: impl Fn(&T) -> Result<Vec<u8>, String>, info: &mut Info) -> Result<(), String> {
+pub fn run_read<T: SerDes>(ty: &Ty, compressed: bool, stream: &[u8], chunks: &[u8], value_image: impl Fn(&T) -> Result<Vec<u8>, String>, info: &mut Info) -> Result<(), String> {
     let mut rd = ChunkReader { data: stream, pos: 0, chunks, i: 0 };
     let res = cr("deserialize", || T::deserialize(&mut rd, compressed))?;
     let consumed = rd.pos;
@@ -384,7 +384,10 @@ pub fn def() -> PropDef {
         id: "C19",
         rule: "values of Fr, Fq12, G1, G2, G1Affine, G2Affine (subgroup points of every class incl. identity, walks P+[k]G, projective values in generated representatives) x both flags: bytes written compared with the model image (32 / 576 / 48|96 / 96|192 bytes); streams read back through a chunking, counting reader (whole / byte-at-a-time / generated chunk sizes): valid image, every kind of proper prefix, trailing data, opposite flag, one field component replaced by p+k / p-1-k / 2^381 / all-ones / uniform, arbitrary point bytes from the C04 generator (every rejection class), uniform bytes, single bit flips. Oracle: model decides from the bytes alone whether a value is due (then: Ok, exact consumption, value's canonical image equals the consumed bytes) or an error is due (then: Err, never a value or a panic). Non-trivial = stream differs from the valid image; distinct = distinct cases",
         needs_pairing: false,
-        subs: vec![Box::new(Sub { name: "serdes", rule: "serialize bytes == model image; deserialize outcome / consumption / value decided by the model from the bytes", quick: 6000, thorough: 250_000, strategy: || boxed(ser_case_strategy()), check: check_ser })],
+        subs: vec![
+            Box::new(Sub { name: "serdes", rule: "serialize bytes == model image; deserialize outcome / consumption / value decided by the model from the bytes", quick: 6000, thorough: 250_000, strategy: || boxed(ser_case_strategy()), check: check_ser }),
+            super::corpus_sub_serdes(),
+        ],
         assumptions: {
             let mut v = COMMON_ASSUMPTIONS.to_vec();
             v.push("bytes consumed are only constrained on success, as the property states");
